@@ -219,6 +219,7 @@ func init() {
 		ruleTwinClauses(prog, rep, 10, func(fd *ast.FuncDecl) bool { return twinScope(fd) == "C05" })
 		rulePushPair(prog, rep, func(fd *ast.FuncDecl) bool { return twinScope(fd) == "C05" }, 5)
 		ruleKindList(prog, rep, func(fd *ast.FuncDecl) bool { return twinScope(fd) == "C05" }, 10)
+		ruleResultAlias(prog, rep, "jp")
 	}
 	rules["C11"] = func(prog *Program, rep *Report) {
 		rep.Explain("C11 decides sibling clauses across evaluators and representations: the cells of Get, FirstFound, Has, GetNodes and FirstNode keep the index-selection fingerprints they share today across containers and across evaluators (e.g. Has and FirstFound select indexes identically for slices). Not covered: correctness of the shared skeleton, reflection lookup semantics, Locate/Walk normalised paths.")
